@@ -61,6 +61,7 @@ type Session struct {
 	authMode auth.Mode
 	nonce    string
 	user     *auth.User
+	wsAuthed bool // websocket 接入：用户已由 http 层验证，权限仍需按该用户检查
 
 	// DESCRIBE，或 ANNOUNCE 后设置
 	url      *url.URL
@@ -108,6 +109,7 @@ func newSession(svr *Server, conn net.Conn) *Session {
 		session.wsconn = wsc
 		session.path = wsc.Path()
 		session.user = auth.Get(wsc.Username())
+		session.wsAuthed = config.Auth()
 	}
 
 	// ipaddr, _ := address.Parse(conn.RemoteAddr().String(), 80)
@@ -474,7 +476,7 @@ func (s *Session) onPlay(resp *Response, req *Request) (err error) {
 }
 
 func (s *Session) checkPermission(right auth.AccessRight) bool {
-	if s.authMode == auth.NoneAuth {
+	if s.authMode == auth.NoneAuth && !s.wsAuthed {
 		return true
 	}
 
@@ -571,7 +573,9 @@ func (s *Session) onPreprocess(resp *Response, req *Request) (continueProcess bo
 		return false, err
 	}
 
-	s.user = user
+	if s.authMode != auth.NoneAuth { // 无 RTSP 验证时保留接入时确定的用户（websocket）
+		s.user = user
+	}
 	return true, nil
 }
 
